@@ -44,7 +44,7 @@ func init() {
 		Workers:            func(string) int { return 14 },
 		CaseTimeout:        120,
 		TimeoutIsViolation: true,
-		Race:               nil,
+		Race:               func(tier string) bool { return tier == "thorough" },
 		Run:                runC19,
 	})
 }
